@@ -101,6 +101,8 @@ pub struct Effective {
     pub inherited: Vec<(String, Vec<u8>)>,
     pub body_follows: bool,
     pub orig_body: bool,
+    /// after a redirect that stays on the original host an inherited explicit Host may be kept or replaced by the derived one
+    pub inherited_host_optional: bool,
 }
 
 fn method_after(m: &Method, status: u16) -> Method {
@@ -119,6 +121,7 @@ pub fn effective(c: &HeadCase) -> Effective {
     let mut uri_host = c.spec.host.clone();
     let mut inherited = c.spec.orig.clone();
     let orig_body = needs_body(&c.spec.method);
+    let mut inherited_host_optional = false;
     for h in &c.hops {
         method = method_after(&method, h.status);
         target = h.target();
@@ -131,13 +134,17 @@ pub fn effective(c: &HeadCase) -> Effective {
             .iter()
             .filter(|(k, _)| {
                 let k = k.to_ascii_lowercase();
-                !(k == "cookie" || k == "content-length" || (k == "authorization" && !keep_auth))
+                // an explicit Host of the original request was written for the original host: it does not travel to another
+                // one (C14: the followed request's Host names the target's host)
+                let foreign_host = k == "host" && !h.host.eq_ignore_ascii_case(&c.spec.host);
+                !(k == "cookie" || k == "content-length" || (k == "authorization" && !keep_auth) || foreign_host)
             })
             .cloned()
             .collect();
+        inherited_host_optional = true;
     }
     let body_follows = needs_body(&method) || c.despite;
-    Effective { method, target, uri_host, inherited, body_follows, orig_body }
+    Effective { method, target, uri_host, inherited, body_follows, orig_body, inherited_host_optional }
 }
 
 // ---------------------------------------------------------------------------------------------
@@ -448,7 +455,18 @@ pub fn check_head(c: &HeadCase, eff: &Effective, head: &[u8]) -> Result<ReqHead,
     let mut fields: Vec<(String, Vec<u8>)> = h.fields.clone();
 
     // Host: exactly one
-    let caller_host = c.added.iter().chain(eff.inherited.iter()).filter(|(k, _)| k.eq_ignore_ascii_case("host")).count();
+    let added_host = c.added.iter().filter(|(k, _)| k.eq_ignore_ascii_case("host")).count();
+    let mut inherited: Vec<(String, Vec<u8>)> = eff.inherited.clone();
+    if added_host == 0 && eff.inherited_host_optional {
+        // followed flow on the original host: the inherited Host may have been dropped in favour of the derived one
+        let wire_hosts: Vec<&Vec<u8>> = fields.iter().filter(|(k, _)| k.eq_ignore_ascii_case("host")).map(|(_, v)| v).collect();
+        let inh: Vec<&Vec<u8>> = inherited.iter().filter(|(k, _)| k.eq_ignore_ascii_case("host")).map(|(_, v)| v).collect();
+        if wire_hosts.len() == 1 && inh.len() == 1 && wire_hosts[0] != inh[0] && wire_hosts[0][..] == *eff.uri_host.as_bytes() {
+            inherited.retain(|(k, _)| !k.eq_ignore_ascii_case("host"));
+        }
+    }
+    let eff_inherited = &inherited;
+    let caller_host = c.added.iter().chain(eff_inherited.iter()).filter(|(k, _)| k.eq_ignore_ascii_case("host")).count();
     let hosts: Vec<usize> = fields.iter().enumerate().filter(|(_, (k, _))| k.eq_ignore_ascii_case("host")).map(|(i, _)| i).collect();
     if hosts.len() != 1 {
         return Err(format!("{} Host fields in the head", hosts.len()));
@@ -463,8 +481,8 @@ pub fn check_head(c: &HeadCase, eff: &Effective, head: &[u8]) -> Result<ReqHead,
     // framing: Content-Length, or a Transfer-Encoding field whose value is "chunked"; any other Transfer-Encoding value
     // (gzip, ...) is an ordinary header as far as this client is concerned
     let is_te_chunked = |f: &(String, Vec<u8>)| f.0.eq_ignore_ascii_case("transfer-encoding") && f.1.eq_ignore_ascii_case(b"chunked");
-    let caller_cl = c.added.iter().chain(eff.inherited.iter()).filter(|(k, _)| k.eq_ignore_ascii_case("content-length")).count();
-    let caller_te = c.added.iter().chain(eff.inherited.iter()).filter(|f| is_te_chunked(f)).count();
+    let caller_cl = c.added.iter().chain(eff_inherited.iter()).filter(|(k, _)| k.eq_ignore_ascii_case("content-length")).count();
+    let caller_te = c.added.iter().chain(eff_inherited.iter()).filter(|f| is_te_chunked(f)).count();
     let n_cl = fields.iter().filter(|(k, _)| k.eq_ignore_ascii_case("content-length")).count();
     let tes: Vec<usize> = fields.iter().enumerate().filter(|(_, f)| is_te_chunked(f)).map(|(i, _)| i).collect();
     if !eff.body_follows {
@@ -509,14 +527,14 @@ pub fn check_head(c: &HeadCase, eff: &Effective, head: &[u8]) -> Result<ReqHead,
     ];
     let rest = &fields[c.added.len()..];
     let redirected = !c.hops.is_empty();
-    let mut names: Vec<String> = eff.inherited.iter().map(|(k, _)| k.to_ascii_lowercase()).collect();
+    let mut names: Vec<String> = eff_inherited.iter().map(|(k, _)| k.to_ascii_lowercase()).collect();
     for (k, _) in rest {
         names.push(k.to_ascii_lowercase());
     }
     names.sort();
     names.dedup();
     for n in names {
-        let want: Vec<&Vec<u8>> = eff.inherited.iter().filter(|(k, _)| k.eq_ignore_ascii_case(&n)).map(|(_, v)| v).collect();
+        let want: Vec<&Vec<u8>> = eff_inherited.iter().filter(|(k, _)| k.eq_ignore_ascii_case(&n)).map(|(_, v)| v).collect();
         let got: Vec<&Vec<u8>> = rest.iter().filter(|(k, _)| k.eq_ignore_ascii_case(&n)).map(|(_, v)| v).collect();
         let ok = if redirected && REQUEST_SPECIFIC.contains(&n.as_str()) {
             // in-order subsequence
